@@ -218,6 +218,40 @@ CLAIMED = {
             "256-bit primes (their Frobenius constants belong to the other field sizes, covered in the thorough tier); known findings "
             "C10-F1..F10.",
             "DESIGN.md §5 (C10, to be added by the integrator); lean/RelicVerif/Props/C10.lean header"),
+    "C16": ("Lean 4 proofs (GF(2)[z] on natural numbers mapped injectively into Mathlib's (ZMod 2)[X]; the comb, Karatsuba, table-squaring, "
+            "fast-reduction, shift-and-add, square-root, trace, half-trace, iterated-squaring and inversion-chain algorithms = polynomial "
+            "arithmetic modulo f for all inputs; Lopez-Dahab and affine point formulas = the affine group law over any field of characteristic "
+            "two; every multiplication loop = k•P over an abstract group / a Z[tau]-module; tau-adic recoding theorems) + correspondence on "
+            "both 283-bit polynomials and NIST B-283 / K-283, including an AddressSanitizer stream",
+            "Proved in Lean, for all inputs: xor / shift-and-xor product / long division on natural numbers are sum / product / remainder of "
+            "polynomials over GF(2) (unique remainder, commutative-ring laws, additivity of squaring); fb_muln_low (Lopez-Dahab 4-bit comb), "
+            "one-level Karatsuba, fb_sqrl_low (spreading table), fb_rdcn_low (digit-wise folding modulo a trinomial / pentanomial, any digit "
+            "size) and fb_mul_basic equal that arithmetic; under the Frobenius check z^(2^m) = z mod f, evaluated by the driver on the "
+            "polynomial of the running library, the specification's sqrt / trace / half-trace satisfy r^2 = a, Tr(a^2) = Tr(a), "
+            "H^2 + H = a + Tr(a), the even/odd-splitting square root and the coefficient-selecting trace agree with them, and for irreducible f "
+            "a*inv(a) = 1 with unique inverses; fb_inv_basic / fb_inv_itoht compute a^(2^m-2) in any commutative monoid; the iterated-squaring "
+            "table evaluates the additive map. Curves: the statement-by-statement models of eb_add_basic / eb_add_projc (mixed and general) / "
+            "eb_dbl_* / eb_neg_* / eb_norm / eb_frb compute the chord-and-tangent law of y^2 + xy = x^3 + a x^2 + b with the exceptional cases "
+            "dispatched as the group law demands (P = Q -> doubling, P = -Q and doubling the point of order two -> identity); eb_hlv inverts "
+            "doubling in both branches of its trace test; bn_rec_tnaf_mod + bn_rec_tnaf give digits denoting k modulo tau^m - 1 in any commutative "
+            "ring with tau^2 = mu tau - 2, and the loops of eb_mul_basic / lwnaf / rwnaf (ordinary and Koblitz, with the tables of eb_tab) / "
+            "lodah ladder / halve (cofactor-2 branch) / fix_basic / fix_combs / fix_lwnaf / sim_trick / sim_inter / sim_joint return k•P "
+            "(k•P + m•Q). The driver evaluates the specification through fast evaluators proved equal to it. PARTIAL / known findings "
+            "C16-1..C16-16 (known_findings.json, findings/): fb_inv(1) unreduced, fb_rdc_basic(0) faults, fb2_slv wrong for Tr(a0) = 1, "
+            "fb_cmp_dig, the point of order two in the affine routines and in compression, eb_hlv(O), eb_norm / eb_norm_sim on separate results "
+            "and on projective identities (silently wrong eb_mul_sim_trick / joint), eb_mul_lodah(O), projective operands of lodah / halve / "
+            "rwnaf, scalars longer than r (silently wrong in lodah / fix_basic / comb, refused elsewhere), stack overflow of bn_rec_tnaf. "
+            "Tie: ~3400 lines per run (every fb_* / fb2_* / eb_* variant by name, every element / point / scalar class of the quantifier, alias "
+            "patterns, affine / projective / lambda representations), model column = the Lean model of the C algorithm, spec column = the "
+            "GF(2)[z] / affine-law specification.",
+            "Trusted: Lean kernel; hand-written models tied by the correspondence run; irreducibility of f is a hypothesis of the inverse "
+            "theorems (the driver's check z^(2^m) = z implies it for prime m, not proved in Lean); field polynomial, curve coefficients, "
+            "generator, order, cofactor read from the running library and sanity-checked by the driver (deg f, reduction exponents, srz^2 = z, "
+            "generator on curve, r*G = O, Hasse interval, Koblitz flag); class C (compared on the presented lines only): fb_inv_binar / exgcd / "
+            "almos / bruch / ctaia / lower, fb_sqrn_low, fb_rdc_basic, fb_mul_dig, fb_slv_quick's table walk, fb_exp_*, fb2_*, eb_mul_halve on "
+            "the cofactor-4 curve, eb_mul_fix_combd, the Koblitz eb_mul_sim_*, eb_mul_dig, the x-only ladder formulas of eb_mul_lodah, "
+            "eb_pck / eb_upk / eb_read_bin / eb_write_bin; points presented to lodah / halve lie in the subgroup generated by G.",
+            "tools/props/c16.py, findings/C16-*.md"),
     "C18": ("Translator (selectable field and curve tables extracted from relic_fp_param.c / relic_ep_param.c on every run) + Lean 4 kernel "
             "evaluation of the consistency predicates on the extracted literals + Pratt certificates checked in Lean (soundness proved with "
             "Mathlib's Lucas test) + correspondence of the table with the values the running library reports",
